@@ -38,7 +38,7 @@ def run(ctx, rep):
     rep.rule("R07.5", "the exception loader never runs a constructor and only instantiates vetted BaseException subclasses")
     rep.rule("R07.6", "no lookup of a peer-chosen name on a module/class outside the policy or the vetted exception path")
     rep.rule("R07.7", "the wire decoder is effect-free (= R04.7)")
-    rep.rule("R07.8", "exception replies disclose only what the policy would: public attributes, gated traceback/version (= R09.1, R09.2)")
+    rep.rule("R07.8", "exception replies disclose only what the policy would: public attributes, gated traceback/version (= R09.1, R09.2); a forged exception reply is answered, never re-raised out of serve() (= R08.1)")
     rep.assume("calls on peer-supplied objects (obj(*args)) are external by design: what exposed service code does is out of scope",
                "resource exhaustion is out of scope", "the default configuration is the DEFAULT_CONFIG literal (folded)")
     cg = callgraph.get(ctx)
@@ -362,6 +362,7 @@ def run(ctx, rep):
             n7 += 1
             rep.ob("R07.7", o.key, o.ok, o.msg, o.loc, o.witness, o.nontrivial, o.kind)
     rep.floor("R07.7", "decoder effect obligations shared with C04", n7, 2)
+    K.share(ctx, rep, "c08", lambda o: o.rule == "R08.1" and "local propagation" in o.key, "R07.8", floor=1)
     K.share(ctx, rep, "c09", lambda o: o.rule in ("R09.1", "R09.10") or (o.rule == "R09.2" and "public attributes" in o.key), "R07.8", floor=3)
 
 
